@@ -147,6 +147,21 @@ def check(rep, an, tier):
                     "underdetermined_opt": "underdetermined_opt", "l2_eps": "l2_eps", "B": "B"})
         F.wrapper_returns_solution(rep, res, "ReceptorEstimator.fit_underdetermined", {"lsq_linear_underdetermined"}, ("X", "B"))
         R.rule_effect_free(rep, res, "ReceptorEstimator.fit_underdetermined") if label == "vector" else None
+        if label in ("number", "vector"):
+            # the option keeps its KIND through the wrapper: a number is the wanted TOTAL intensity (the objective contains Σx), a vector the
+            # wanted intensities themselves (no total)
+            for po, obj, cons in F.final_problems(res):
+                sense, expr = R.objective_nf(obj)
+                if expr is None:
+                    continue
+                tot = [1 for at, v_, ops_ in R.walk_atoms(expr) if at == "sum" and ops_ and ops_[0].tag("cvx") in ("leaf", "expr")
+                       and not any(a2 == "sum_squares" for a2, _, _ in R.walk_atoms(ops_[0]))]
+                rep.check("R-DISPATCH", f"option given as a {label} reaches the {label} objective through the estimator", bool(tot) == (label == "number"),
+                          where=F.where_po(po), construct=norm_text(obj.tag("node"))[:80] if obj.tag("node") is not None else "objective",
+                          entry="ReceptorEstimator.fit_underdetermined", config=res.config,
+                          msg=("a plain number handed to the estimator arrives as an array (np.asarray turns it into a 0-d array) and is routed to "
+                               "the 'closest to this vector' objective: every intensity is pulled towards the number instead of their TOTAL")
+                              if label == "number" else "a vector option is routed to the total-intensity objective")
     rep.require("R-DISPATCH", 14)
     rep.require("R-FLOW", 30)
     rep.require("R-FORWARD", 8)
